@@ -31,6 +31,18 @@ func genC05(t *rapid.T) hx.SessionCase {
 		l := fmt.Sprintf("r%d", i)
 		switch rapid.IntRange(0, 13).Draw(t, l+"-k") {
 		case 0, 1, 2:
+			if rapid.IntRange(0, 5).Draw(t, l+"-restart") == 0 {
+				// a transfer that is started over: the same path is created again while it is the open write file,
+				// with data before and after
+				p := "/" + hx.GenName(t, "portable", l+"-rn")
+				sz := func(k string) uint32 {
+					return uint32(rapid.SampledFrom([]int{1, 100, 4096, 65536, 70000}).Draw(t, l+k))
+				}
+				reqs = append(reqs, hx.Req{Op: "CREATE", Path: hx.BStr(p)}, hx.Req{Op: "WRITE", N: sz("-r1"), Seed: rapid.Uint64Range(1, 1<<40).Draw(t, l+"-rs1")},
+					hx.Req{Op: "CREATE", Path: hx.BStr(p)}, hx.Req{Op: "WRITE", N: sz("-r2"), Seed: rapid.Uint64Range(1, 1<<40).Draw(t, l+"-rs2")})
+				uploaded = append(uploaded, p)
+				continue
+			}
 			// an upload: CREATE + chunks
 			var p string
 			switch rapid.IntRange(0, 11).Draw(t, l+"-target") {
